@@ -121,7 +121,7 @@ impl LuaEngine {
         let globals = lua.globals();
         
         // Remove dangerous functions for sandboxing
-        let dangerous_functions = ["os", "io", "debug", "package", "require", "dofile", "loadfile", "load"];
+        let dangerous_functions = ["os", "io", "debug", "package", "require", "dofile", "loadfile", "load", "newproxy"];
         for func in &dangerous_functions {
             globals.set(*func, mlua::Nil).map_err(|e| FerrousError::LuaError(e.to_string()))?;
         }
@@ -186,10 +186,31 @@ impl LuaEngine {
         
         // Remove dangerous functions for sandboxing
         let globals = lua.globals();
-        let dangerous_functions = ["os", "io", "debug", "package", "require", "dofile", "loadfile", "load"];
+        let dangerous_functions = ["os", "io", "debug", "package", "require", "dofile", "loadfile", "load", "newproxy"];
         for func in &dangerous_functions {
             globals.set(*func, mlua::Nil).map_err(|e| FerrousError::LuaError(e.to_string()))?;
         }
+        
+        // `newproxy` (removed above) is the one way a Lua 5.1 script can make an object with a __gc finalizer, and
+        // finalizers run with the debug hooks off - at collectgarbage() or when the state is closed after the
+        // script - so an endless one escapes the time limit and wedges the command thread for ever.
+        // Lua 5.1 executes precompiled chunks without validating them (a chunk patched by the script crashes the
+        // VM): scripts get no string.dump, and loadstring compiles source text only.
+        if let Ok(string_table) = globals.get::<mlua::Table>("string") {
+            string_table.set("dump", mlua::Nil).map_err(|e| FerrousError::LuaError(e.to_string()))?;
+        }
+        let loadstring = lua.create_function(|lua, (chunk, name): (mlua::String, Option<String>)| -> LuaResult<(LuaValue, Option<String>)> {
+            let source = chunk.as_bytes().to_vec();
+            if source.first() == Some(&0x1b) {
+                return Ok((LuaValue::Nil, Some("attempt to load a binary chunk".to_string())));
+            }
+            let loaded = lua.load(source).set_name(name.unwrap_or_else(|| "=(loadstring)".to_string())).into_function();
+            Ok(match loaded {
+                Ok(function) => (LuaValue::Function(function), None),
+                Err(e) => (LuaValue::Nil, Some(e.to_string())),
+            })
+        }).map_err(|e| FerrousError::LuaError(e.to_string()))?;
+        globals.set("loadstring", loadstring).map_err(|e| FerrousError::LuaError(e.to_string()))?;
         
         // Create Redis API using unified command processing
         let redis_table = lua.create_table().map_err(|e| FerrousError::LuaError(e.to_string()))?;
